@@ -31,6 +31,7 @@ CONSTANTS
   BindLeaves = TRUE
   EmitOn = TRUE
 INVARIANT InvCovValid
+INVARIANT InvRescaleControl
 INVARIANT InvUpdate
 INVARIANT InvReject
 INVARIANT InvNisNonNeg
